@@ -195,6 +195,11 @@ func (x *Exec) libCall(fr *Frame, st *State, key string, callee *ssa.Function, a
 		if x.s.strSMT {
 			return V{T: rt, S: "(str.indexof " + args[0].S + " " + args[1].S + " 0)"}, true
 		}
+		x.s.declareUF("str_index", "("+x.s.strSort()+" "+x.s.strSort()+")", "Int")
+		x.trust("strings.Index is a pure function of its arguments (uninterpreted, -1 <= result <= len)")
+		r := "(str_index " + args[0].S + " " + args[1].S + ")"
+		x.assume("true", "(and (<= (- 1) "+r+") (<= "+r+" "+x.strLen(args[0].S)+"))")
+		return V{T: rt, S: r}, true
 	case "strings.Split":
 		if x.s.strSMT {
 			// strings.Split(s, sep) for a non-empty separator: the first part is the prefix before
@@ -548,7 +553,7 @@ func (x *Exec) libMods(key string, cc *ssa.CallCommon) ([]modTarget, bool) {
 	}
 	switch key {
 	case "errors.New", "fmt.Errorf", "errors.Is", "errors.Join", "slices.Equal", "bytes.Equal", "strings.Contains", "strings.HasPrefix", "strings.HasSuffix",
-		"strings.EqualFold", "strings.TrimSpace", "strings.ToLower", "strings.ToUpper", "strings.TrimSuffix", "strings.TrimPrefix", "time.Now",
+		"strings.EqualFold", "strings.Index", "strings.TrimSpace", "strings.ToLower", "strings.ToUpper", "strings.TrimSuffix", "strings.TrimPrefix", "time.Now",
 		"sync.(*Mutex).Lock", "sync.(*Mutex).Unlock", "sync.(*RWMutex).Lock", "sync.(*RWMutex).Unlock", "sync.(*RWMutex).RLock", "sync.(*RWMutex).RUnlock":
 		return nil, true
 	case "slices.Clone", "bytes.Clone":
